@@ -570,24 +570,38 @@ func checkAuthzScreen(e *Engine, r *Report) {
 		r.Bad("checkDisabledMsgs › MsgGrant arm", pos, "no type-switch arm for *authz.MsgGrant: grants for disabled messages are not refused")
 	} else {
 		var test *ssa.Call
+		tfn := fn // the function holding the test: checkDisabledMsgs, or a single-site private helper called in the arm whose error is propagated
+		reg := e.privateRegion(fn)
 		for _, c := range armRegion(arm) {
 			if isDisabledCall(c) {
 				test, _ = c.(*ssa.Call)
 			}
 		}
 		if test == nil {
+			for _, c := range armRegion(arm) {
+				h := c.Common().StaticCallee()
+				if h == nil || h == fn || !reg.in[h] || !errorPropagated(fn, c, nil) {
+					continue
+				}
+				for _, hc := range callsIn(h, false, isDisabledCall) {
+					test, _ = hc.(*ssa.Call)
+					tfn = h
+				}
+			}
+		}
+		if test == nil {
 			r.Bad("checkDisabledMsgs › MsgGrant arm", e.Pos(arm.Pos()), "MsgGrant arm does not test the authorization's message type URL against the disabled list")
 		} else {
-			sl := backSlice(test.Call.Args[len(test.Call.Args)-1], SliceOpts{ThroughCallArgs: alwaysThrough})
+			sl := reg.BackSlice(test.Call.Args[len(test.Call.Args)-1], SliceOpts{ThroughCallArgs: alwaysThrough})
 			okURL := sl.Has(func(v ssa.Value) bool {
 				c, ok := v.(*ssa.Call)
 				return ok && isMethodNamed(c, "MsgTypeURL")
 			}) && sl.HasCall(CallSpec{authzPkg, "MsgGrant", "GetAuthorization"})
 			r.Check(okURL, "checkDisabledMsgs › MsgGrant url", e.Pos(test.Pos()), "tests GetAuthorization().MsgTypeURL()", "the tested URL does not derive from msg.GetAuthorization().MsgTypeURL()")
-			gs := boolCallGuards(fn, false, func(c *ssa.Call) bool { return c == test })
+			gs := boolCallGuards(tfn, false, func(c *ssa.Call) bool { return c == test })
 			okE := false
 			for _, g := range gs {
-				if eg, ok := errorExitGuard(fn, g.If, func(ssa.CallInstruction) bool { return false }); ok && eg.Survive == g.Survive {
+				if eg, ok := errorExitGuard(tfn, g.If, func(ssa.CallInstruction) bool { return false }); ok && eg.Survive == g.Survive {
 					okE = true
 				}
 			}
@@ -899,7 +913,18 @@ func checkLanePredicates(e *Engine, r *Report) {
 				}
 			}
 		}
+		// "already found one": a boolean flag carried round the loop, or the loop's induction variable being past its first value
+		isSecond := false
 		if _, isPhi := i.Cond.(*ssa.Phi); isPhi {
+			isSecond = true
+		}
+		if bo, isB := i.Cond.(*ssa.BinOp); isB {
+			if phi, isPhi := bo.X.(*ssa.Phi); isPhi && isInductionFromZero(phi) {
+				k, isK := constInt(bo.Y)
+				isSecond = isK && ((k == 0 && (bo.Op == token.GTR || bo.Op == token.NEQ)) || (k == 1 && bo.Op == token.GEQ))
+			}
+		}
+		if isSecond {
 			t := i.Block().Succs[0]
 			if len(t.Instrs) > 0 {
 				if ret, isRet := t.Instrs[len(t.Instrs)-1].(*ssa.Return); isRet {
@@ -995,4 +1020,23 @@ func checkLanePredicates(e *Engine, r *Report) {
 		}
 	})
 	r.Check(okOpts && okURL, "IsEthereumTx › critical options: none or exactly the Ethereum extension", e.Pos(ie.Pos()), "len(opts) == 0, or == 1 with the Ethereum extension type URL", "an Ethereum transaction with other/multiple critical extension options is accepted")
+}
+
+// isInductionFromZero: phi(0, phi+1) — the counter of `for i := 0; …; i++`.
+func isInductionFromZero(phi *ssa.Phi) bool {
+	zero, step := false, false
+	for _, ev := range phi.Edges {
+		if k, isK := constInt(ev); isK && k == 0 {
+			zero = true
+			continue
+		}
+		if b, ok := ev.(*ssa.BinOp); ok && b.Op == token.ADD && b.X == ssa.Value(phi) {
+			if k, isK := constInt(b.Y); isK && k == 1 {
+				step = true
+				continue
+			}
+		}
+		return false
+	}
+	return zero && step && len(phi.Edges) == 2
 }
